@@ -482,6 +482,14 @@ Proof.
     apply IHf in E2. subst. reflexivity.
 Qed.
 
+Lemma skip_blanks_suffix (s : string) : exists w, s = w ++ skip_blanks s.
+Proof.
+  induction s as [|a s [w Hw]]; [exists ""; reflexivity|].
+  cbn [skip_blanks]. destruct (is_blank_or_tab a).
+  - exists (String a w). cbn [append]. rewrite <- Hw. reflexivity.
+  - exists "". reflexivity.
+Qed.
+
 (** the arguments are parts of the text, each followed by something; the rest is a suffix *)
 Lemma capture_args_split (fuel n : nat) : forall (s : string) (l : list string) (r : string),
   capture_args fuel n s = Some (l, r) ->
@@ -489,9 +497,10 @@ Lemma capture_args_split (fuel n : nat) : forall (s : string) (l : list string) 
   (forall a, In a l -> exists x y, s = x ++ a ++ y /\ y <> "").
 Proof.
   induction n as [|n IH]; intros s l r H.
-  - cbn [capture_args] in H. destruct s as [|c s]; [discriminate|].
-    destruct (Ascii.eqb c ")"); [|discriminate]. inversion H; subst.
-    split; [exists (String c ""); reflexivity|]. intros a [].
+  - cbn [capture_args] in H. destruct (skip_blanks_suffix s) as [w Hw].
+    destruct (skip_blanks s) as [|c s']; [discriminate|].
+    destruct (Ascii.eqb c ")"); [|discriminate]. inversion H; subst l r.
+    split; [exists (w ++ String c ""); rewrite app_assoc_s; exact Hw|]. intros a [].
   - destruct n as [|n'].
     + cbn [capture_args] in H. destruct (capture_arg fuel s) as [a1 r0] eqn:E.
       apply capture_arg_split in E. destruct r0 as [|c r']; [discriminate|].
@@ -593,8 +602,14 @@ Section Replace.
       remember (expand_template (S (String.length tmpl)) tmpl ps args) as ex eqn:Hex.
       injection H as H1 H2. subst t c. split; [|discriminate].
       match type of Etry with (if ?b then _ else _) = _ => destruct b; [|discriminate] end.
+      destruct (drop_suffix (String.length name) (String a r)) as [z0 Hz0].
+      destruct (skip_blanks_suffix (string_drop (String.length name) (String a r))) as [w Hw].
+      destruct (skip_blanks (string_drop (String.length name) (String a r))) as [|c0 r0]; [discriminate|].
+      destruct (Ascii.eqb c0 "("); [|discriminate].
       apply capture_args_split in Etry. destruct Etry as [[m Hm] Hargs].
-      destruct (drop_suffix (S (String.length name)) (String a r)) as [z Hz].
+      assert (Hz : String a r = ((z0 ++ w) ++ String c0 "") ++ r0).
+      { rewrite Hz0 at 1. rewrite Hw at 1. rewrite !app_assoc_s. reflexivity. }
+      remember ((z0 ++ w) ++ String c0 "") as z eqn:Ez. clear Ez Hz0 Hw.
       apply P_ins.
       + rewrite Hex. apply nlfree_expand_template; [|exact Ht].
         apply Forall_forall. intros arg Hin. destruct (Hargs arg Hin) as [x [y [Hxy Hy]]].
